@@ -18,8 +18,12 @@ Inductive kind := Plain | Fixed | Varying.
    TU8 / TS8 / TByte  unsigned char / signed char / std::byte;
    TTrk   a type with non-trivial copy/move/destroy/assign/swap (instrumented);
    TTrkC  non-trivial copy/move constructors, trivial destructor (the reverse does not
-          exist: std::is_trivially_*_constructible requires a trivial destructor) *)
-Inductive ty := TBlob | TUInt | TSInt | TU8 | TS8 | TByte | TTrk | TTrkC.
+          exist: std::is_trivially_*_constructible requires a trivial destructor);
+   TTrkMA trivial but for a user-provided MOVE assignment operator (and an ADL swap):
+          trivially copy-assignable, not trivially move-assignable;
+   TTrkCA trivial but for a user-provided COPY assignment operator: trivially
+          move-assignable (and trivially swappable), not trivially copy-assignable *)
+Inductive ty := TBlob | TUInt | TSInt | TU8 | TS8 | TByte | TTrk | TTrkC | TTrkMA | TTrkCA.
 
 Record param := { pk : kind; psz : Z; pal : Z; pty : ty }.
 
